@@ -392,6 +392,10 @@ func runLim(c LimCase, cs *kit.CaseStats) error {
 				if r.err != nil {
 					if err := conns[r.peer].Call(&gateway.RPCShareNodes{}, 20*time.Second); err != nil {
 						cs.Inconclusive("peer-connection-lost")
+						if os.Getenv("VERIF_NET_DEBUG") != "" {
+							js, _ := json.Marshal(c)
+							fmt.Printf("CONN-LOST burst=%d req-err=%v probe-err=%v failed=%v case=%s\n", b, r.err, err, failed, js)
+						}
 						return nil
 					}
 				}
